@@ -12,7 +12,7 @@ CFG = {
     "max_report": 6,
     "eval_timeout": 1500,
     "level": "proof",
-    "rule": ("every third case is a FRAGMENT program (var/let/const with TDZ, blocks, closures/arrows, calls, hoisted function "
+    "rule": ("1 case in 12 is a MAPPED-ARGUMENTS history (parameter / arguments[i] stores, defineProperty, freeze, reads in a sloppy function, variants plain/capture/evalvis/block) compared with the state machine coq/C02/Args.v; every third case is a FRAGMENT program (var/let/const with TDZ, blocks, closures/arrows, calls, hoisted function "
              "declarations, for(let) with per-iteration copies captured by closures, while, if, try/catch/throw, return, "
              "typeof, ++/--, && || ?: comma, constant operands; strict mode; placed as global code, function body or eval code) "
              "generated scope-aware from the grammar of coq/C02/Model.v, run in goja and compared (log, completion value / "
